@@ -132,3 +132,82 @@ Example c03_nonvacuous :
   (exists g, get_group st 1 = Some g /\ occupied g = 0%nat /\ stat_subs g = [2]) /\
   vsess st 3 = Some (KRtspPub, 1, false, true) /\ vatt st 1 1 = Some AFinished.
 Proof. vm_compute. split; [reflexivity|]. split; [eexists; split; [reflexivity|split; reflexivity]|split; reflexivity]. Qed.
+
+(* ---- several commands on one RTSP command connection (GroupRtspShell.v) ------------------------------------
+   An RTSP connection is not a session: every ANNOUNCE / DESCRIBE on it creates a new session object.
+   [crun] runs histories in which connections receive further ANNOUNCE / DESCRIBE commands, PLAY, and
+   end; every such history is a history of admission events, so the theorems above speak about it: *)
+From Lal Require Import Group.GroupRtspShell Group.GroupRtspShellProofs.
+
+Theorem c03_rtsp_conn_histories : forall fsh cf h,
+  exists es, run fixed_tree cf init_state es =
+             (cs_base (fst (crun fsh fixed_tree cf init_cstate h)), snd (crun fsh fixed_tree cf init_cstate h)).
+Proof. exact shell_history. Qed.
+Print Assumptions c03_rtsp_conn_histories.
+
+(* ... for instance one input at most, notifications exactly start / start;stop per session, the stat view *)
+Theorem c03_rtsp_conn_single_input : forall fsh cf h s g,
+  get_group (cs_base (fst (crun fsh fixed_tree cf init_cstate h))) s = Some g -> (occupied g <= 1)%nat.
+Proof. exact shell_single_input. Qed.
+Print Assumptions c03_rtsp_conn_single_input.
+
+Theorem c03_rtsp_conn_notifications : forall fsh cf h n,
+  word (snd (crun fsh fixed_tree cf init_cstate h)) (WConn n)
+  = conn_word (vsess (cs_base (fst (crun fsh fixed_tree cf init_cstate h))) n).
+Proof. exact shell_notifications. Qed.
+Print Assumptions c03_rtsp_conn_notifications.
+
+(* What those theorems cannot say is whether the shell ever REPORTS the departure of a session.  On the
+   repaired tree (a connection that carries a publish or play session answers a further ANNOUNCE /
+   DESCRIBE with an error and ends), after any connection-level history: no session created on a
+   connection that has ended is still admitted - so by the theorems above it occupies no input slot,
+   is in no subscriber set, is not listed by stat and has got its stop notification -, and every
+   admitted RTSP session is the one session of an open connection, held in the field whose departure
+   handleTcpConnect reports when that connection ends. *)
+Theorem c03_rtsp_conn_end : forall cf h,
+  let cs := fst (crun true fixed_tree cf init_cstate h) in
+  (forall c m kd s, In c (cs_conns cs) -> cn_open c = false -> In m (cn_members c) ->
+                    vsess (cs_base cs) m <> Some (kd, s, true, false)) /\
+  (forall n kd s, vsess (cs_base cs) n = Some (kd, s, true, false) -> rtsp_kind kd ->
+     exists c, In c (cs_conns cs) /\ cn_open c = true /\ cn_members c = [n] /\
+               ((kd = KRtspPub /\ cn_pub c = Some n /\ cn_sub c = None) \/ (kd = KRtspSub /\ cn_pub c = None /\ cn_sub c = Some n))).
+Proof. exact conn_end_complete. Qed.
+Print Assumptions c03_rtsp_conn_end.
+
+(* F-C03-2, the tree before that repair: ANNOUNCE twice on one connection - the connection has ended, its
+   first publisher is still admitted and still the publisher the stat view lists *)
+Theorem c03_rtsp_conn_end_pinned_refuted :
+  exists cf h c m kd s,
+    let cs := fst (crun false fixed_tree cf init_cstate h) in
+    In c (cs_conns cs) /\ cn_open c = false /\ In m (cn_members c) /\ vsess (cs_base cs) m = Some (kd, s, true, false) /\
+    exists g, get_group (cs_base cs) s = Some g /\ stat_pub g = Some m.
+Proof. exact conn_end_refuted_unrepaired. Qed.
+Print Assumptions c03_rtsp_conn_end_pinned_refuted.
+
+(* An RTMP connection is one session, and a session publishes or plays once.  A further publish / play
+   command on the connection of an admitted RTMP session is refused; its whole effect is the departure
+   of that session from the stream it was admitted to - the stream and the kind of the refused command
+   play no part (pkg/rtmp/server_session.go doPublish / doPlay: the guard comes before anything of the
+   command is recorded). *)
+Theorem c03_rtmp_second_command : forall fsh fx cf cs s pb n x,
+  find_sess n (st_sess (cs_base cs)) = Some x -> (s_kind x = KRtmpPub \/ s_kind x = KRtmpSub) ->
+  s_acc x = true -> s_gone x = false -> s_closed x = false ->
+  let '(cs1, r, ns) := cstep fsh fx cf cs (CRtmpCmd s n pb) in
+  r = RRef /\
+  cs_base cs1 = fst (fst (step fx cf (cs_base cs) (EGone n))) /\ ns = snd (step fx cf (cs_base cs) (EGone n)) /\
+  cs_conns cs1 = cs_conns cs /\
+  vsess (cs_base cs1) n = Some (s_kind x, s_stream x, true, true).
+Proof. exact rtmp_cmd_departs. Qed.
+Print Assumptions c03_rtmp_second_command.
+
+(* ... so after any history such a command leaves the session listed by the stat of no stream (and,
+   by c03_rtsp_conn_notifications, with its stop notified: its word is start;stop) *)
+Theorem c03_rtmp_second_command_unlisted : forall fsh cf h s pb n x,
+  let cs := fst (crun fsh fixed_tree cf init_cstate h) in
+  find_sess n (st_sess (cs_base cs)) = Some x -> (s_kind x = KRtmpPub \/ s_kind x = KRtmpSub) ->
+  s_acc x = true -> s_gone x = false -> s_closed x = false ->
+  let cs1 := fst (crun fsh fixed_tree cf init_cstate (h ++ [CRtmpCmd s n pb])) in
+  vsess (cs_base cs1) n = Some (s_kind x, s_stream x, true, true) /\
+  forall s' g, get_group (cs_base cs1) s' = Some g -> stat_pub g <> Some n /\ ~ In n (stat_subs g).
+Proof. exact rtmp_cmd_unlisted. Qed.
+Print Assumptions c03_rtmp_second_command_unlisted.
